@@ -23,7 +23,7 @@
    command is TaskCmd.v's (property C02).
    Concurrency is a schedule: a list of [action]s; every theorem of props/C03.v quantifies over all
    of them.  Definitions only; lemmas live in proofs/Watcher_proofs.v. *)
-From Verif Require Import Common RoleTree TaskCmd Gen_LeafHandover Gen_FailureLabel Gen_OwnerRouting Gen_Reconcile.
+From Verif Require Import Common RoleTree TaskCmd Gen_LeafHandover Gen_FailureLabel Gen_OwnerRouting Gen_Reconcile Gen_RosterWrite.
 Open Scope N_scope.
 
 Definition path := list nat.
@@ -301,6 +301,17 @@ Definition failure_label_irrelevant : bool :=
    hypothesis and exercised by the refresh-then-fail worlds of the harness. *)
 Definition refresh_keeps_ownership : bool := status_refresh_guarded.
 
+(* Every failure path starts from the roster entry of the task, and the model's environment has all
+   its tasks: in the code a task of a live environment must stay in the task manager's roster,
+   whatever other environments are deployed or torn down at the same time.  The roster is replaced
+   as a whole only by roster.updateTasks; that no such write puts back a snapshot kept across a
+   Mesos call (which would erase what a concurrent deployment appended) is read from the source
+   (translator rosterwrite) and probed on the implementation at every sampling point
+   ([wo_rostered], monitor class 11) in worlds where another environment's teardown - a held KILL
+   call - overlaps the whole deployment. *)
+Definition roster_writes_fresh : bool :=
+  N.leb 1 roster_whole_writes && N.eqb roster_stale_writebacks 0.
+
 (* A fault of the model is addressed to a task position of THE environment: the implementation must
    route every failure report to the environment that owns the task now, whatever the message
    carries (a task claimed from an earlier environment - reuseUnlockedTasks - still stamps its
@@ -538,7 +549,10 @@ Record wobs := mkWO {
   wo_cmded : list N;        (* positions that received a transition command (sorted, unique) *)
   wo_rend : N;              (* run_end_time_ms: 0 not defined, 1 "", 2 set *)
   wo_runevs : list N;       (* run events in order *)
-  wo_tasks : list (N * N)   (* (role state, role status) of every task *)
+  wo_tasks : list (N * N);  (* (role state, role status) of every task *)
+  wo_rostered : bool        (* probe: every task of the environment is an entry of the task manager's
+                               roster - the precondition of every failure path (a status update, a lost
+                               executor / agent, a device event all start from the roster entry) *)
 }.
 
 Fixpoint dedup_adj (l : list N) : list N :=
@@ -565,7 +579,7 @@ Definition view_tasks (s : wsys) : list (N * N) :=
 Definition observe (s : wsys) : wobs :=
   mkWO (N_of_estate (w_env s)) (is_flying s) (log_states (w_log s))
        (log_cmded (length (w_paths s)) (w_log s)) (N_of_runv (w_rend s)) (log_runevs (w_log s))
-       (view_tasks s).
+       (view_tasks s) true.
 
 (* a script stops at the first step that hangs or leaves the environment in ERROR *)
 Fixpoint run_script (ops : list sop) (s : wsys) : list wobs :=
@@ -610,7 +624,7 @@ Definition wo_eqb (a b : wobs) : bool :=
   N.eqb (wo_state a) (wo_state b) && Bool.eqb (wo_hang a) (wo_hang b) &&
   list_eqb N.eqb (wo_reported a) (wo_reported b) && list_eqb N.eqb (wo_cmded a) (wo_cmded b) &&
   N.eqb (wo_rend a) (wo_rend b) && list_eqb N.eqb (wo_runevs a) (wo_runevs b) &&
-  list_eqb nn_eqb3 (wo_tasks a) (wo_tasks b).
+  list_eqb nn_eqb3 (wo_tasks a) (wo_tasks b) && Bool.eqb (wo_rostered a) (wo_rostered b).
 
 Definition corr03 (c : c03_case) : bool := list_eqb wo_eqb (run_model3 (c3_in c)) (c3_obs c).
 
@@ -634,6 +648,8 @@ Definition corr03 (c : c03_case) : bool := list_eqb wo_eqb (run_model3 (c3_in c)
     8  the failure of a non-critical task changed the outcome of the request it raced with
     9  the environment reports RUNNING at the end although a critical task is dead
    10  benign status traffic (TASK_RUNNING refresh / reconciliation answers) changed the environment state
+   11  a task of the live environment is not in the task manager's roster (every later failure of it
+       would go unnoticed): named before the classes it causes
    14  observation malformed (no step observed / more steps than requested) *)
 
 Definition crit_in (t : rtree) (paths : list path) (i : nat) : bool :=
@@ -730,6 +746,7 @@ Fixpoint mon_ops3 (gone : bool) (t : rtree) (paths : list path) (prev : N) (view
       match ops with
       | [] => [14]
       | o :: ops' =>
+          (if negb (wo_rostered ob) then 11 else 0) ::
           regone gone
             (match o with
              | SCmd _ _ => 0                         (* plain requests are C02's business *)
@@ -754,7 +771,7 @@ Definition mon_create3 (t : rtree) (paths : list path) (early : option fault) (o
       else match f with FInternal _ => 2 | FDead _ => 7 end
   end.
 
-Definition prio03 : list N := [14; 9; 1; 10; 7; 8; 5; 6; 4; 2; 3].
+Definition prio03 : list N := [14; 11; 9; 1; 10; 7; 8; 5; 6; 4; 2; 3].
 Definition pick03 (present : list N) : N :=
   match filter (fun c => memN c present) prio03 with [] => 0 | c :: _ => c end.
 
@@ -764,7 +781,7 @@ Definition mon_codes3 (c : c03_case) : list N :=
   | [] => [14]
   | ob :: obs' =>
       let c0 := mon_create3 (i_tree i) (i_paths i) (i_early i) ob in
-      c0 :: mon_ops3 (N.eqb c0 3) (i_tree i) (i_paths i) (wo_state ob) (wo_tasks ob) (i_ops i) obs'
+      (if negb (wo_rostered ob) then 11 else 0) :: c0 :: mon_ops3 (N.eqb c0 3) (i_tree i) (i_paths i) (wo_state ob) (wo_tasks ob) (i_ops i) obs'
   end.
 Definition mon03 (c : c03_case) : N := pick03 (mon_codes3 c).
 
